@@ -45,7 +45,7 @@ check("C14", "exploration",
       "deterministic simulation: seeded scheduler + short-I/O/preemption/signal fault injection, exact byte-stream oracle", "DESIGN.md section 4 C14")
 
 check("C18", "exploration",
-      "Generated scripts (commands mixed with data lines read from the same input, alias/option changes affecting later lines, multi-line constructs, here-documents in every position where the grammar lets a newline follow the operator, planted syntax errors, a final consumer of the remaining input) are fed as a regular file, through a pipe written by a simulated feeder process in seeded chunk sizes under seeded schedules with preemption at every read, as a -c string and as a command file; oracles: trace/status equality with the generator's expectation in every variant and chunking, and at every `tell` probe the input has been consumed exactly to the end of the running command's last line (lseek offset for files; bytes read from fd 0 according to kernel events for pipes). Fault configurations with a prefix oracle: the input source dies after a seeded number of bytes (short file / feeder closes the pipe) or the input file's reads start failing with EIO at a seeded read - everything delivered completely must have taken effect, nothing hangs, and the shell does not report success when its own reader failed.",
+      "Generated scripts (commands mixed with data lines read from the same input, alias/option changes affecting later lines, multi-line constructs, here-documents in every position where the grammar lets a newline follow the operator, planted syntax errors, a final consumer of the remaining input) are fed as a regular file, through a pipe written by a simulated feeder process in seeded chunk sizes under seeded schedules with preemption at every read, as a -c string and as a command file; oracles: trace/status equality with the generator's expectation in every variant and chunking, and at every `tell` probe the input has been consumed exactly to the end of the running command's last line (lseek offset for files; bytes read from fd 0 according to kernel events for pipes). Fault configurations with a prefix oracle: the input source dies after a seeded number of bytes (short file / feeder closes the pipe) or the input file's reads start failing with EIO at a seeded read - everything delivered completely must have taken effect, nothing hangs, and the shell does not report success when its own reader failed (the EIO also as a transient error of one read). A fifth of the scripts also go to an interactive shell on the standard-input variants: same commands and offsets, and it goes on after a one-line syntax error.",
       BASE_NOTE, "deterministic simulation: simulated feeder process with seeded chunking + seeded scheduler; offset invariant from kernel read events", "DESIGN.md section 4 C18")
 
 check("C09", "fault_enumeration",
